@@ -143,3 +143,26 @@ pub fn show_msg(m: &LMsg) -> serde_json::Value {
         "attrs": m.attrs.iter().map(|a| a.show()).collect::<Vec<_>>()
     })
 }
+
+/// Equality of two decoded attributes by the value type's OWN `PartialEq` (None when the type has none).
+/// Complements the accessor-based logical comparison: a decoder that keeps ignorable bits inside the value makes
+/// the two differ here even when every accessor returns the same.
+pub fn native_eq(a: &stun_rs::StunAttribute, b: &stun_rs::StunAttribute) -> Option<bool> {
+    use stun_rs::StunAttribute as A;
+    macro_rules! eqs {
+        ($($v:ident),*) => {
+            match (a, b) {
+                $( (A::$v(x), A::$v(y)) => Some(x == y), )*
+                (A::ChangeRequest(_), A::ChangeRequest(_)) => None,
+                _ => Some(false),
+            }
+        };
+    }
+    eqs!(
+        Unknown, AlternateServer, ErrorCode, Fingerprint, MappedAddress, MessageIntegrity, MessageIntegritySha256, Nonce,
+        PasswordAlgorithm, PasswordAlgorithms, Realm, Software, UnknownAttributes, UserHash, UserName, XorMappedAddress,
+        IceControlled, IceControlling, Priority, UseCandidate, ChannelNumber, LifeTime, XorPeerAddress, XorRelayedAddress,
+        Data, RequestedAddressFamily, EvenPort, DontFragment, RequestedTrasport, AdditionalAddressFamily,
+        ReservationToken, AddressErrorCode, Icmp, MobilityTicket, OtherAddress, Padding, ResponseOrigin, ResponsePort
+    )
+}
